@@ -159,6 +159,18 @@ class TDH:
         return Mpo(self.model, terms, offset=Quantity(self.offset))
 
 
+class CountingH:
+    """Time-independent Hamiltonian handed over as a callable (documented alternative): counts how often the propagator asks for it,
+    i.e. stages x trial steps of the adaptive Runge-Kutta controller."""
+
+    def __init__(self, mpo):
+        self.mpo, self.calls = mpo, []
+
+    def __call__(self, t, *args, **kwargs):
+        self.calls.append(float(np.real(t)))
+        return self.mpo
+
+
 def _ham_entry_ok(e):
     return e.kind == "mpo" and e.meta.get("hermitian")
 
@@ -186,20 +198,25 @@ def op_expand(w, s):
     e, eh = w.h[s["a"]], w.h[s["h"]]
     if e.kind == "mpo" or eh.mid != e.mid or not _ham_entry_ok(eh) or not nonzero(e):
         return "skipped"
-    src = e.obj.copy()
+    src = e.obj      # the call works on the live object: it is documented to return a new state (C13)
     cap = exact_bond_cap(w.pd(e.mid, e.kind))
     m = s.get("m") or max(cap)
     # the expander needs room at every interior bond (a bond already at its target gets a zero-dimensional expander)
     if any(min(int(m), cp) - b <= 0 for b, cp in zip(src.bond_dims[1:-1], cap[1:-1])):
         return "skipped"
+    w.changed.add(s["a"])   # configuration and gauge of the input are set by the caller (value preserving)
     src.compress_config = CompressConfig(CompressCriteria.fixed, max_bonddim=int(m))
     if not sweep_ready(src):
         src.ensure_left_canonical()
+    bonds_in = list(src.bond_dims)
     try:
         res = src.expand_bond_dimension(eh.obj, include_ex=False)
     except Exception as ex:
         w.stats.probes["expand_failed:" + type(ex).__name__] += 1
         return "skipped"
+    w.check_value(s["a"], {"C13", "C09"}, "C13.expand.input_changed", what="input of expand_bond_dimension")
+    if list(src.bond_dims) != bonds_in:
+        raise V({"C13", "C09"}, "C13.expand.input_truncated", f"expand_bond_dimension changed the bond dimensions of its input {bonds_in} -> {list(src.bond_dims)}")
     w.put(s["out"], e.kind, res, dense.dense_of(res), e.mid, {"expanded": int(m)})
     # the expander adds components of relative size 1e-10: the represented state must not move more than that
     err = float(np.linalg.norm((w.h[s["out"]].shadow - e.shadow).ravel()))
@@ -462,12 +479,14 @@ def op_evolve(w, s):
     w.cur_op = f"evolve:{method}"
     _ivp_budget[0] = 4000
     cfg_before = None
+    counter = None
     try:
         # (do_evolve installs the configuration first; the snapshot is what the caller set on the object)
         if not carried:
             do_evolve_cfg_only(src, c, dt, bond_m)
         cfg_before = _cfg_fingerprint(src)
-        res = do_evolve(w, src, tdh if tdh is not None else eh.obj, c, dt, bond_m, normalize=s.get("normalize", True), keep_config=True)
+        counter = CountingH(eh.obj) if (tdh is None and method == "tdrk" and c.get("adaptive")) else None
+        res = do_evolve(w, src, tdh if tdh is not None else (counter if counter is not None else eh.obj), c, dt, bond_m, normalize=s.get("normalize", True), keep_config=True)
     except StepBudgetExceeded:
         w.stats.probes["ivp_budget_exceeded:" + method] += 1
         w.changed.add(a)  # gauge of the input may have been touched (ensure_left_canonical); value is re-checked below
@@ -567,7 +586,11 @@ def op_evolve(w, s):
     # ---- SimClock: sample times of the time-dependent Hamiltonian
     if tdh is not None:
         _check_td_times(w, tdh, method, ec, float(dt), c)
-    judged = sufficient and X_LO <= x <= X_HI and tdh is None
+    # time-dependent runs are judged only where the bound is a tolerance (adaptive RK), not an order constant
+    # (not judged by accuracy: the embedded error estimate is a heuristic for rapidly driven Hamiltonians - measured: accepted steps
+    # with 8x the threshold - so the clock oracle _check_td_times decides the time-dependent adaptive runs instead)
+    td_adaptive = False
+    judged = sufficient and X_LO <= x <= X_HI and (tdh is None or td_adaptive)
     if judged and illcond:
         w.stats.probes["mean_field_illconditioned_not_judged"] += 1
         judged = False
@@ -593,6 +616,15 @@ def op_evolve(w, s):
                                                      f"stepper using the library's own coefficients by {e1:.3e}", sig=f"evolve.layer1:{method}")
     if judged:
         bound, why = scheme_bound(c, ec, x, method, imag, e.kind, split_exact)
+        if method == "tdrk" and c.get("adaptive") and bound is not None:
+            # the controller ACCEPTS a trial step whenever its error estimate is below 2^order x adaptive_rtol (p >= 0.5), so the
+            # guaranteed accuracy is (number of steps) x 2^order x adaptive_rtol; the number of trial steps is read off the clock seam
+            ncalls = len(tdh.calls) if tdh is not None else len(counter.calls)
+            ntrial = max(1, ncalls // max(1, int(ec.rk_config.stage)))
+            bound = max(bound, ntrial * 2.0 ** int(ec.rk_config.order[0]) * c.get("adaptive_rtol", 5e-4) + 2e-9)
+            why = f"adaptive RK: max(20, {ntrial} trial steps x 2^{int(ec.rk_config.order[0])}) x adaptive_rtol"
+            if td_adaptive:
+                key = key + ":td"
         if bound is not None:
             r = w.stats.ratio("evolve.layer2:" + key + ("" if split_exact is None else ":exact" if split_exact else ":order"), err, bound)
             if err > bound and not CALIBRATE:
@@ -639,6 +671,31 @@ def _check_td_times(w, tdh, method, ec, dt, c):
         want = [0.0, 0.5 * dt, 0.5 * dt, dt]
     elif method == "tdrk" and not c.get("adaptive"):
         want = [float(ci) * dt for ci in np.asarray(ec.rk_config.tableau[2]).ravel()]
+    elif method == "tdrk":
+        # adaptive: the calls come in groups of `stage`; group g samples t0_g + c_i * tau_g; a rejected trial keeps t0, an accepted
+        # one advances it by tau_g, and the accepted steps must add up to dt exactly
+        cs = [float(ci) for ci in np.asarray(ec.rk_config.tableau[2]).ravel()]
+        st = len(cs)
+        tol = 1e-9 * max(abs(dt), 1.0)
+        if len(calls) % st:
+            raise V({"C09"}, "C09.td.sample_times", f"adaptive {c.get('rk_solver')}: {len(calls)} requests are not a multiple of the {st} stages", sig="C09.td.sample_times:tdrk:adaptive")
+        t0 = 0.0
+        reached = 0.0
+        for g in range(len(calls) // st):
+            grp = calls[g * st:(g + 1) * st]
+            i1 = max(range(st), key=lambda i: abs(cs[i]))
+            tau = (grp[i1] - grp[0]) / cs[i1] if cs[i1] else 0.0
+            if abs(grp[0] - t0) > tol and abs(grp[0] - reached) > tol:
+                raise V({"C09"}, "C09.td.sample_times", f"adaptive {c.get('rk_solver')}: trial step {g} starts at t={grp[0]!r}, expected {t0!r} (retry) or {reached!r} (continue); requests {calls[:3 * st]}",
+                        sig="C09.td.sample_times:tdrk:adaptive")
+            t0 = grp[0]
+            if any(abs(grp[i] - (t0 + cs[i] * tau)) > tol for i in range(st)):
+                raise V({"C09"}, "C09.td.sample_times", f"adaptive {c.get('rk_solver')}: trial step {g} samples {grp}, not t0 + c*tau with t0={t0!r}, tau={tau!r}", sig="C09.td.sample_times:tdrk:adaptive")
+            reached = t0 + tau
+        if abs(reached - dt) > 1e-6 * max(abs(dt), 1e-12):
+            raise V({"C09"}, "C09.td.sample_times", f"adaptive {c.get('rk_solver')}: the last trial step ends at t={reached!r}, the requested step is {dt!r}", sig="C09.td.sample_times:tdrk:adaptive")
+        w.stats.probes["td_adaptive_schedule_checked"] += 1
+        return
     else:
         w.stats.probes["td_calls_" + method] += len(calls)
         return
@@ -761,6 +818,15 @@ def _pairwise(w, s, pair, e, eh, c, dt, bond_m, got, x, hn, imag, pid_main, td, 
 # proposals
 
 def gen_cfg(rnd, imag, kind, allow_td=True):
+    if rnd.random() < 0.1:
+        # scenario: the step-size controller must REJECT its first trial step (tight tolerance, over-optimistic guess)
+        g = rnd.choice([0.5, 2.0, 10.0])
+        c = {"adaptive": True, "guess_dt": [0.0, -g] if imag else [g, 0.0], "adaptive_rtol": rnd.choice([1e-6, 1e-7, 1e-8]), "reject_scenario": True}
+        if imag or rnd.random() < 0.5:
+            c.update(method="pc", taylor_order=None)
+        else:
+            c.update(method="tdrk", rk_solver=rnd.choice(sorted(EMBEDDED)))
+        return c
     method = rnd.choice(["pc", "pc", "tdrk4", "tdrk", "tdrk", "ps", "ps", "ps2", "vmf", "mu_vmf", "mu_cmf", "mu_cmf"])
     if imag and method in ("tdrk4", "tdrk"):
         method = rnd.choice(["pc", "ps", "ps2", "mu_vmf", "mu_cmf"])
@@ -787,7 +853,8 @@ def gen_cfg(rnd, imag, kind, allow_td=True):
     if c.get("adaptive"):
         g = rnd.choice([0.02, 0.1, 0.5, 2.0])
         c["guess_dt"] = [0.0, -g] if imag else [g, 0.0]
-        c["adaptive_rtol"] = rnd.choice([5e-4, 1e-4, 1e-5])
+        # tight tolerances make the step-size controller REJECT trial steps (retry with a smaller step)
+        c["adaptive_rtol"] = rnd.choice([5e-4, 1e-4, 1e-5, 1e-6, 1e-7])
     return c
 
 
@@ -839,6 +906,8 @@ def _gen_evolve(w, rnd, imag):
     if hn < 1e-3:
         return None
     x = 10 ** rnd.uniform(math.log10(X_LO), math.log10(X_HI)) if rnd.random() < 0.85 else rnd.uniform(0.5, 1.5)
+    if c.get("reject_scenario"):
+        x = rnd.uniform(0.25, 0.5)
     tau = round(x / hn, 6)
     cap = exact_bond_cap(w.pd(e.mid, e.kind))
     m = max(cap) if rnd.random() < 0.8 else rnd.randint(1, max(2, max(cap)))
@@ -848,7 +917,8 @@ def _gen_evolve(w, rnd, imag):
         s["dt"][0] = abs(s["dt"][0])
     if e.meta.get("evolved") and rnd.random() < 0.3:
         s["keep_config"] = True
-    if not imag and c["method"] in ("tdrk4", "tdrk", "vmf", "mu_vmf") and rnd.random() < 0.35 and not c.get("adaptive"):
+    if not imag and ((c["method"] in ("tdrk4", "tdrk", "vmf", "mu_vmf") and rnd.random() < 0.35 and not c.get("adaptive"))
+                     or (c["method"] == "tdrk" and c.get("adaptive") and rnd.random() < 0.5)):
         spec = w.model_specs[e.mid]
         i = rnd.randrange(len(spec["sites"]))
         sy, d, q, _h = gm.elementary(spec["sites"][i], rnd, spec["qn_size"], hermitian_only=True)
